@@ -921,6 +921,29 @@ def kind_of(v, pr, m):
     return ("viol:" + "+".join(bad)) if bad else ("race-window" if any(pr.values()) else "clean")
 
 
+def fmmu_family(quick):
+    """three / four participants whose scripted FMMU draws fall into the same bitmap byte; all are brought to the point just
+    before `FMMULock(...)`, then x performs a operations, y performs b, x and afterwards the others finish (y gets no further turn,
+    so it keeps running): every way one participant's FMMULock section can be cut once by another's"""
+    import itertools
+    out = []
+    zeros = "00" * 64
+    sets = [([C(fm=[9]), C(et=[12288], fm=[10]), C(et=[12288, 12289], fm=[10])], [9, 9, 10], range(2, 9) if quick else range(1, 11), range(4, 11) if quick else range(1, 11)),
+            ([C(fm=[10]), C(et=[12288], fm=[11]), C(et=[12288, 12289], fm=[10]), C(et=[12288, 12289, 12290], fm=[11])],
+             [9, 9, 10, 11], range(3, 7) if quick else range(1, 11), range(7, 11) if quick else range(1, 11))]
+    for cfgs, pre, ra, rb in sets:
+        n = len(cfgs)
+        prefix = [p for p in range(n) for _ in range(pre[p])]
+        for fm0 in ([zeros] if quick else [zeros, None]):
+            for x, y in itertools.permutations(range(n), 2):
+                rest = [z for z in range(n) if z not in (x, y)]
+                for a in ra:
+                    for b in rb:
+                        sched = prefix + [x] * a + [y] * b + [x] * 10 + [z for z in rest for _ in range(10)]
+                        out.append({"cfgs": cfgs, "sched": sched, "fm0": fm0})
+    return out
+
+
 def run(ctx):
     cases = []
     # every split point of the last-leaver race: P1 starts after k operations of P0 (k = 11 … 18), P0 continues afterwards
@@ -942,6 +965,7 @@ def run(ctx):
         for _ in range(ctx.n(20, 600)):
             cases.append({"cfgs": [C(), C(et=[12288], fm=[2]), C(et=[12289], fm=[3])], "crash": [0],
                           "sched": [0] * k + [ctx.rng.choice([1, 1, 2, 2, 1, 2, 1]) for _ in range(70)], "fm0": None})
+    cases += fmmu_family(ctx.quick)
     for _ in range(ctx.n(500, 20000)):
         cases.append(gen(ctx.rng))
     cases += [dict(w) for w in FORMER_WITNESSES]
